@@ -147,7 +147,8 @@ def main():
             print(blog[-3000:])
             return 2
     else:
-        obl = leanproof.check_obligations(prop, extra_modules=['Splipy.Driver.All'])
+        obl = leanproof.check_obligations(prop, extra_modules=['Splipy.Driver.All'],
+                                         extra_theorems=getattr(mod, 'EXTRA_THEOREMS', ()))
     if tier == 'thorough' and obl['build_ok'] and not args.no_proof:
         import subprocess
         r = subprocess.run(['lake', 'env', 'leanchecker', 'Splipy.Properties.' + prop], cwd=modelmod.LEAN_DIR,
